@@ -13,6 +13,9 @@ name, leaves bound to them, the duplicate-name RuntimeError of `Circuit.add` (al
 compute_unitary(assign=…), evaluation with undefined parameters, copy() / copy(subs=…); compared after every operation:
 outcome class, registry (names, order, object identity), `defined`, parameters of the reachable leaves, values of all
 Parameter objects; at every evaluation: the matrix.
+Port-range cases (`Model/C01Range.lean`, driver requests {"range": …}, {"lit": …}, {"rcase": …}): `Circuit.add` with an int / tuple /
+list argument and `//= (pos, c)`, admissible or wrong in one way; outcome class of every add, the tuples stored in `_components`,
+the tuples iteration reports and the matrix are compared with the literal model (assertion chain, mergeRange, slice assignment).
 """
 from __future__ import annotations
 
@@ -1722,6 +1725,278 @@ def handle_reg_history(chk, hist):
     chk.fail(kind, sig, what, replay)
 
 
+
+# ------------------------------------------------------------------------------------------------
+# extension 8: the `port_range` argument of `add` (int / tuple / list / `//=`), range shifts, literal block assignment
+# (Lean: Model/C01Range.lean; driver requests {"range": …} and {"lit": …})
+# ------------------------------------------------------------------------------------------------
+RANGE_BRANCHES = ["range-ok-int", "range-ok-tuple", "range-ok-list", "range-ok-fd", "range-rej-nonconsecutive",
+                  "range-rej-negative", "range-rej-too-high", "range-rej-length", "range-empty-valueerror",
+                  "range-merge-shift-nonzero", "range-full-width", "range-lit-compared", "range-nested-iter-shift",
+                  "range-tree-compared"]
+
+
+def gen_range_arg(rng, m, k):
+    """-> (form, value): mostly the admissible range(off, off + k), otherwise one of the ways to get it wrong"""
+    form = rng.choice(["int", "tuple", "list", "fd"])
+    r = rng.random()
+    if r < 0.6 and k <= m:
+        off = rng.randint(0, m - k)
+    else:
+        off = rng.randint(-2, m + 1)
+    if form in ("int", "fd"):
+        return {"form": form, "v": off}
+    seq = list(range(off, off + k))
+    r = rng.random()
+    if r < 0.62:
+        pass
+    elif r < 0.68:
+        seq = []
+    elif r < 0.75 and len(seq) >= 1:
+        seq = seq[:-1]
+    elif r < 0.82:
+        seq = seq + [seq[-1] + 1 if seq else 0]
+    elif r < 0.88 and len(seq) >= 2:
+        i = rng.randrange(len(seq) - 1)
+        seq[i], seq[i + 1] = seq[i + 1], seq[i]
+    elif r < 0.93 and len(seq) >= 2:
+        i = rng.randrange(1, len(seq))
+        seq = seq[:i] + [x + 1 for x in seq[i:]]
+    elif r < 0.97 and len(seq) >= 2:
+        seq = list(reversed(seq))
+    elif len(seq) >= 2:
+        seq[rng.randrange(1, len(seq))] = seq[0]
+    return {"form": form, "v": seq}
+
+
+def gen_range_case(rng, max_m):
+    m = rng.randint(1, max_m)
+    adds = []
+    for _ in range(rng.randint(1, 5)):
+        if rng.random() < 0.45 and m >= 2:
+            k = rng.randint(1, m if rng.random() < 0.9 else m + 1)
+            inner = []
+            for _ in range(rng.randint(0, 2)):
+                leaf = gens.gen_leaf(rng, k)
+                inner.append({"off": rng.randint(0, k - gens.leaf_width(leaf)), "leaf": leaf})
+            comp = {"k": k, "inner": inner}
+        else:
+            leaf = gens.gen_leaf(rng, m if rng.random() < 0.9 else m + 1)
+            comp = {"k": gens.leaf_width(leaf), "leaf": leaf}
+        arg = gen_range_arg(rng, m, comp["k"])
+        adds.append({"arg": arg, "comp": comp, "merge": rng.choice([None, True, False])})
+    return {"m": m, "adds": adds}
+
+
+def range_expected(m, k, arg):
+    """direct oracle, independent of the Lean driver: ("ok", off) iff the argument denotes range(off, off+k) inside
+    [0, m); what the property calls an admissible attachment"""
+    if arg["form"] in ("int", "fd"):
+        seq = list(range(arg["v"], arg["v"] + k))
+    else:
+        seq = list(arg["v"])
+    if seq and seq == list(range(seq[0], seq[0] + k)) and seq[0] >= 0 and seq[0] + k <= m and k > 0:
+        return ("ok", seq[0])
+    return ("rej", None)
+
+
+def run_range_case(chk, case, count=True):
+    import perceval as pcvl
+    m = case["m"]
+    c = pcvl.Circuit(m)
+    exp_items = []          # direct oracle: (first port, leaf matrix) in order
+    exp_stored = []         # ranges `_components` must hold
+    reqs = []
+    obs = []
+    rcase_adds = []
+    for ad in case["adds"]:
+        comp, arg = ad["comp"], ad["arg"]
+        k = comp["k"]
+        if "leaf" in comp:
+            obj = gens.build_leaf(comp["leaf"])
+            leaves = [(0, obj)]
+        else:
+            obj = pcvl.Circuit(k)
+            leaves = []
+            for it in comp["inner"]:
+                lf = gens.build_leaf(it["leaf"])
+                obj.add(it["off"], lf)
+                leaves.append((it["off"], lf))
+        form, v = arg["form"], arg["v"]
+        before = [tuple(r) for r, _ in c._components]
+        try:
+            if form == "fd":
+                c //= (v, obj)          # merge=True inside
+            else:
+                a = v if form == "int" else (tuple(v) if form == "tuple" else list(v))
+                if ad["merge"] is None:
+                    c.add(a, obj)
+                else:
+                    c.add(a, obj, merge=ad["merge"])
+            out = "ok"
+        except AssertionError:
+            out = "assertion"
+        except ValueError:
+            out = "valueError"
+        except Exception as e:
+            out = type(e).__name__
+        merged = (form == "fd" or bool(ad["merge"])) and "inner" in comp and len(comp["inner"]) > 0
+        after = [tuple(r) for r, _ in c._components]
+        obs.append({"out": out, "new": [list(r) for r in after[len(before):]], "kept": after[:len(before)] == before})
+        lean_arg = {"int": v} if form == "int" else ({"fd": v} if form == "fd" else {"seq": list(v)})
+        reqs.append({"range": {"m": m, "k": k, "arg": lean_arg}})
+        if "leaf" in comp:
+            lcomp = {"leaf": obj.m, "U": gens.leaf_matrix_json(obj)}
+        else:
+            lcomp = {"circ": k, "inner": [{"off": o, "leaf": lf.m, "U": gens.leaf_matrix_json(lf)} for o, lf in leaves]}
+        rcase_adds.append({"arg": lean_arg, "merge": bool(form == "fd" or ad["merge"]), "comp": lcomp})
+        exp = range_expected(m, k, arg)
+        if exp[0] == "ok":
+            off = exp[1]
+            for o, lf in leaves:
+                exp_items.append((o + off, lf))
+            if merged:
+                exp_stored.extend([list(range(o + off, o + off + lf.m)) for o, lf in leaves])
+            else:
+                exp_stored.append(list(range(off, off + k)))
+        if count:
+            if exp[0] == "ok":
+                chk.branch("range-ok-" + form)
+                if merged and off > 0:
+                    chk.branch("range-merge-shift-nonzero")
+                if not merged and "inner" in comp and comp["inner"] and off > 0:
+                    chk.branch("range-nested-iter-shift")
+                if not merged and k == m:
+                    chk.branch("range-full-width")
+            elif form in ("tuple", "list"):
+                if len(v) == 0:
+                    chk.branch("range-empty-valueerror")
+                elif v != list(range(v[0], v[0] + len(v))):
+                    chk.branch("range-rej-nonconsecutive")
+                elif v[0] < 0:
+                    chk.branch("range-rej-negative")
+                elif v[-1] >= m:
+                    chk.branch("range-rej-too-high")
+                elif len(v) != k:
+                    chk.branch("range-rej-length")
+            else:
+                chk.branch("range-rej-negative" if v < 0 else "range-rej-too-high")
+    reps = chk.lean.ask_many(reqs)
+    replay = {"range_case": case}
+    for i, (ad, ob, rep) in enumerate(zip(case["adds"], obs, reps)):
+        if "err" in rep:
+            return ("broken", "range-driver", f"the Lean driver refused request {i}: {rep['err']}", replay)
+        exp = range_expected(m, ad["comp"]["k"], ad["arg"])
+        if exp[0] == "ok" and ob["out"] != "ok":
+            return ("violation", "rejects-admissible-range",
+                    f"add #{i} with {ad['arg']} on {m} modes (component of {ad['comp']['k']}) raised {ob['out']} although "
+                    "the range is inside the circuit, consecutive and of the component's size", replay)
+        if exp[0] != "ok" and ob["out"] == "ok":
+            return ("violation", "accepts-inadmissible-range",
+                    f"add #{i} accepted {ad['arg']} on {m} modes for a component of {ad['comp']['k']} modes: the component "
+                    "cannot sit on exactly these modes", replay)
+        if rep["st"] != ob["out"]:
+            return ("broken", "range-outcome-class",
+                    f"add #{i} with {ad['arg']}: the real code gives {ob['out']}, the model {rep['st']}", replay)
+        if ob["out"] != "ok" and (ob["new"] or not ob["kept"]):
+            return ("violation", "rejected-add-changes-circuit",
+                    f"add #{i} raised {ob['out']} but the component list changed", replay)
+    stored = [list(r) for r, _ in c._components]
+    if stored != exp_stored:
+        return ("violation", "stored-ranges",
+                f"the circuit holds its items on {stored}, they were attached at {exp_stored}", replay)
+    # model side of the stored ranges: norm of the argument, shifted element-wise when merged
+    mreqs, mexp = [], []
+    for ad, ob, rep in zip(case["adds"], obs, reps):
+        if ob["out"] != "ok":
+            continue
+        comp = ad["comp"]
+        merged = (ad["arg"]["form"] == "fd" or bool(ad["merge"])) and "inner" in comp and len(comp["inner"]) > 0
+        if merged:
+            for it in comp["inner"]:
+                w = gens.leaf_width(it["leaf"])
+                mreqs.append({"range": {"m": comp["k"], "k": w, "arg": {"int": it["off"]}, "outer": rep["norm"]}})
+                mexp.append("shifted")
+        else:
+            mreqs.append({"range": {"m": m, "k": comp["k"], "arg": {"seq": rep["norm"]}}})
+            mexp.append("norm")
+    mreps = chk.lean.ask_many(mreqs) if mreqs else []
+    model_stored = [r[w] for r, w in zip(mreps, mexp)]
+    if model_stored != stored:
+        return ("broken", "range-stored-model",
+                f"the circuit holds {stored}, the model (norm / mergeRange) says {model_stored}", replay)
+    # iteration + literal evaluation
+    try:
+        it_items = [(list(r), lf) for r, lf in c]
+        u = np.array(c.compute_unitary(), dtype=complex)
+    except Exception as e:
+        return ("violation", "evaluation-raises",
+                f"compute_unitary()/iteration after accepted adds raised {type(e).__name__}: {str(e)[:120]}", replay)
+    exp_iter = [list(range(o, o + lf.m)) for o, lf in exp_items]
+    if [r for r, _ in it_items] != exp_iter:
+        return ("violation", "iteration-ranges",
+                f"iteration reports {[r for r, _ in it_items]}, the leaves were attached at {exp_iter}", replay)
+    spec = np.eye(m, dtype=complex)
+    for o, lf in exp_items:
+        e = np.eye(m, dtype=complex)
+        e[o:o + lf.m, o:o + lf.m] = np.array(lf.compute_unitary(), dtype=complex)
+        spec = e @ spec
+    if not np.allclose(u, spec, rtol=core.TOL, atol=core.TOL):
+        return ("violation", "matrix-not-product",
+                f"compute_unitary() differs from the ordered product of the embedded leaf matrices by "
+                f"{float(np.max(np.abs(u - spec))):.3g}", replay)
+    if not np.allclose(u @ u.conj().T, np.eye(m), atol=1e-8):
+        return ("violation", "not-unitary", "compute_unitary() after accepted adds of unitary leaves is not unitary", replay)
+    lit = chk.lean.ask({"lit": {"m": m, "items": [{"r": r, "k": lf.m, "U": gens.leaf_matrix_json(lf)}
+                                                  for r, lf in it_items]}})
+    if "err" in lit:
+        return ("broken", "range-lit-driver", f"the literal loop of the model refused the iteration ranges: {lit['err']}",
+                replay)
+    if count:
+        chk.branch("range-lit-compared")
+    mu = np.array(core.unmat(lit["U"]), dtype=complex)
+    if mu.shape != u.shape or not np.allclose(u, mu, rtol=core.TOL, atol=core.TOL):
+        return ("broken", "range-lit-matrix", "the literal loop of the model (slice assignment, len(r)==m shortcut, u=None "
+                "start) and compute_unitary() disagree although the direct oracle holds", replay)
+    # the whole case run by the literal tree model (radd / riter / rlitV, sub-circuits kept as trees)
+    rc = chk.lean.ask({"rcase": {"m": m, "adds": rcase_adds}})
+    if "err" in rc:
+        return ("broken", "range-tree-driver", f"the range-tree model refused the case: {rc['err']}", replay)
+    if rc["outs"] != [o["out"] for o in obs]:
+        return ("broken", "range-tree-outcomes", f"outcomes of the adds: real {[o['out'] for o in obs]}, model {rc['outs']}",
+                replay)
+    if rc["stored"] != stored:
+        return ("broken", "range-tree-stored", f"_components ranges: real {stored}, model {rc['stored']}", replay)
+    if rc["iter"] != [r for r, _ in it_items]:
+        return ("broken", "range-tree-iteration",
+                f"iteration ranges: real {[r for r, _ in it_items]}, model {rc['iter']}", replay)
+    tu = np.array(core.unmat(rc["U"]), dtype=complex)
+    if tu.shape != u.shape or not np.allclose(u, tu, rtol=core.TOL, atol=core.TOL):
+        return ("broken", "range-tree-matrix", "rlitV of the range-tree model and compute_unitary() disagree although the "
+                "direct oracle holds", replay)
+    if count:
+        chk.branch("range-tree-compared")
+    return None
+
+
+def handle_range_case(chk, case):
+    res = run_range_case(chk, case)
+    chk.count("range_m", case["m"])
+    chk.case(("range", case["m"], tuple((a["arg"]["form"], str(a["arg"]["v"]), a["comp"]["k"], str(a["merge"]))
+                                        for a in case["adds"])),
+             nontrivial=any("inner" in a["comp"] and a["comp"]["inner"] for a in case["adds"]),
+             sample={"m": case["m"], "args": [a["arg"] for a in case["adds"]][:4]})
+    if res is None:
+        return
+    kind, sig, what, replay = res
+
+    def fails(adds):
+        r = run_range_case(chk, {"m": case["m"], "adds": adds}, count=False)
+        return r is not None and r[1] == sig
+    small = gens.shrink_list(case["adds"], fails)
+    chk.fail(kind, sig, what, {"range_case": {"m": case["m"], "adds": small}})
+
+
 def run(chk: core.Check):
     chk.rule = ("random construction programs (add int/tuple/list range, merge yes/no/default, //, //(i,c), @, "
                 "barrier, copy, leaf-started circuits, nested sub-circuits; 10% with one inadmissible range); "
@@ -1740,7 +2015,12 @@ def run(chk: core.Check):
                 "symbol, by name, by list; evaluation with undefined parameters) sent to the Lean registry model and run with "
                 "the real API: outcome class, registry (names, order, object identity), `defined`, parameters of the reachable "
                 "leaves, values of all Parameter objects after every operation, matrices at every evaluation (non-trivial = "
-                "contains a copy and an assign)")
+                "contains a copy and an assign); plus port-range cases (Circuit(m) receiving 1-5 adds whose port_range is an "
+                "int, a tuple, a list or the (pos, c) pair of //=, admissible or wrong in one way: negative, too high, not "
+                "consecutive, reversed, duplicated port, too short, too long, empty; component a leaf or a sub-circuit, merged "
+                "or nested): outcome class of every add, the ranges stored in _components, the ranges iteration reports and "
+                "the matrix compared with the Lean model of the assertion chain / mergeRange / the literal slice assignment "
+                "(non-trivial = contains a sub-circuit with leaves)")
     chk.assumptions = ["leaf matrices are taken from each leaf's own compute_unitary() (their correctness is C14)"]
     chk.required_branches = ["merge", "nest", "floordiv", "matmul", "barrier", "copy", "lead-leaf", "rejected",
                              "hist-nest-by-reference", "hist-merge", "hist-reevaluated-after-growth", "hist-copy",
@@ -1748,7 +2028,7 @@ def run(chk: core.Check):
                              "hist-eval-through-shallow-handle", "hist-symbolic-substituted", "hist-rejected",
                              "hist-set-through-assign",
                              "symbolic", "param-value-changed-after-assembly", "param-matmul", "param-symbolic-substituted"] + \
-                            ["symbolic-leaf-" + t for t in ("BS", "PS", "PERM", "U", "UH", "Barrier")] + RH_BRANCHES
+                            ["symbolic-leaf-" + t for t in ("BS", "PS", "PERM", "U", "UH", "Barrier")] + RH_BRANCHES + RANGE_BRANCHES
     chk.lean = core.LeanDriver("C01")
     rng = chk.rng
     n = chk.pick(500, 5000)
@@ -1761,6 +2041,8 @@ def run(chk: core.Check):
             handle_history(chk, entry["pool_history"])
         elif "reg_history" in entry:
             handle_reg_history(chk, entry["reg_history"])
+        elif "range_case" in entry:
+            handle_range_case(chk, entry["range_case"])
         else:
             handle(chk, entry["program"])
     batch = []
@@ -1784,6 +2066,8 @@ def run(chk: core.Check):
         handle_param_program(chk, strip_for_params(rng, e, [0]))
     for _ in range(chk.pick(250, 2500)):
         handle_reg_history(chk, gen_reg_history(rng, rng.randint(6, chk.pick(20, 32)), chk.pick(4, 5)))
+    for _ in range(chk.pick(400, 2000)):
+        handle_range_case(chk, gen_range_case(rng, chk.pick(6, 8)))
 
 
 def count_ops(chk, e):
@@ -1856,6 +2140,9 @@ def replay(chk, data):
             return
     if "reg_history" in data["replay"]:
         handle_reg_history(chk, data["replay"]["reg_history"])
+        return
+    if "range_case" in data["replay"]:
+        handle_range_case(chk, data["replay"]["range_case"])
         return
     expr = data["replay"]["program"]
     handle(chk, expr)
